@@ -73,6 +73,10 @@ def gen_font(rng, n):
                     sy = sx if rng.random() < 0.4 else rng.choice([4, 5, 6, 8, 10, 12, 14, -8]) * 2048
                     second = second + (sx, sy)
                 g = {"name": "g%d" % i, "adv": 700, "components": [(a, 0, 0), second]}
+                if rng.random() < 0.4:
+                    # offsets that fit a signed byte, written as bytes (ARG_1_AND_2_ARE_WORDS clear), often negative
+                    second = (b, rng.randint(-128, 127), rng.randint(-128, 127)) + second[3:]
+                    g = {"name": "g%d" % i, "adv": 700, "components": [(a, 0, 0), second], "byte_args": True}
         else:
             g = {"name": "g%d" % i, "adv": 600, "contours": rand_outline(rng, k)}
         glyphs.append(g)
